@@ -10,7 +10,9 @@ import (
 	"github.com/relex/slog-agent/base/bconfig"
 	"github.com/relex/slog-agent/base/bmatch"
 	"github.com/relex/slog-agent/input/syslogprotocol"
+	"github.com/relex/slog-agent/transform/taddfields"
 	"github.com/relex/slog-agent/transform/tdrop"
+	"github.com/relex/slog-agent/transform/tif"
 	"github.com/relex/slog-agent/zz_verif/fakes"
 	"github.com/relex/slog-agent/zz_verif/sym"
 )
@@ -68,3 +70,54 @@ func VerifC19_ExtractionDropCounted() { verifExtractionDrop(true) }
 //
 //verif:reach passed dropped-by-extraction
 func VerifC09_ExtractionDropCountedOnce() { verifExtractionDrop(false) }
+
+// VerifC12_DroppedRecordLeavesNothingBehind: a record dropped by an extraction
+// step inside the input (after an earlier extraction step has filled an
+// optional field) goes back to the pool; the next record parsed by the same
+// connection - which may reuse the pooled object (sym.PoolNondet: a new object
+// or any object put back) - carries only its own values: its optional field is
+// empty, its header fields are its own, whatever the dropped record held. The
+// app names (first byte) and which record matches the drop are symbolic.
+//
+//verif:reach reused-after-drop nothing-dropped
+func VerifC12_DroppedRecordLeavesNothingBehind() {
+	sym.PoolNondet(true)
+	defer sym.PoolNondet(false)
+	schema := base.MustNewLogSchema([]string{"facility", "level", "time", "host", "app", "pid", "source", "extradata", "log", "class"})
+	m := fakes.NewMetrics()
+	cnt := base.NewLogInputCounter(m)
+	outputs := 1 + sym.Choice("outputs", 2)
+	alloc := base.NewLogAllocator(schema, outputs)
+	cfg := &Config{
+		LevelMapping: []string{"off", "fatal", "crit", "error", "warn", "notice", "info", "debug"},
+		Extractions: []bconfig.LogTransformConfigHolder{
+			{Value: &tif.Config{Match: bmatch.VerifMatch("app", "!!str-start", "X"), Then: []bconfig.LogTransformConfigHolder{
+				{Value: &taddfields.Config{Fields: map[string]string{"class": "c-$app"}}},
+			}}},
+			{Value: &tdrop.Config{Match: bmatch.VerifMatch("app", "!!str-start", "X"), Percentage: 100, MetricLabel: "xdrop"}},
+		},
+	}
+	cp, err := cfg.NewParser(logger.Root(), alloc, schema, cnt)
+	sym.Assert(err == nil, "parser with extraction steps is created")
+	line1 := []byte("<13>1 2019-08-15T15:50:46Z host1 Xapp 11 src1 - first message")
+	line1[33] = sym.Byte("app1First")
+	sym.Assume(line1[33] != ' ')
+	line2 := []byte("<14>1 2020-01-02T03:04:05Z host2 Yapp 22 src2 - second")
+	line2[33] = sym.Byte("app2First")
+	sym.Assume(line2[33] != ' ' && line2[33] != 'X')
+	rec1 := cp.Parse(line1, time.Unix(1600000000, 0))
+	rec2 := cp.Parse(line2, time.Unix(1600000001, 0))
+	sym.Assert(rec2 != nil, "the second record is not dropped")
+	if rec2 == nil {
+		return
+	}
+	sym.Assert(rec2.Fields[9] == "", "a record that sets no class has none, whatever an earlier dropped record held")
+	sym.Assert(rec2.Fields[3] == "host2" && rec2.Fields[5] == "22" && rec2.Fields[6] == "src2" && rec2.Fields[8] == "second", "the record carries its own header fields and message")
+	sym.Assert(rec2.Fields[4] == string(line2[33:37]), "the record carries its own app name")
+	if rec1 == nil {
+		sym.Reach("reused-after-drop")
+	} else {
+		sym.Assert(rec1.Fields[9] == "", "an undropped first record has no class either")
+		sym.Reach("nothing-dropped")
+	}
+}
